@@ -49,6 +49,9 @@ func NewCompositeSequenceDFA(re *syntax.Regexp) *CompositeSequenceDFA {
 		if p.minMatch == 0 {
 			return nil // Star quantifiers need more complex handling
 		}
+		if p.minMatch > 1 {
+			return nil // cc{2,} requires character counting as well
+		}
 		if p.maxMatch > 0 {
 			return nil // Bounded max requires character counting
 		}
@@ -419,7 +422,7 @@ func IsCompositeSequenceDFAPattern(re *syntax.Regexp) bool {
 
 	// Check all parts have minMatch >= 1 and maxMatch == 0 (unbounded)
 	for _, p := range parts {
-		if p.minMatch == 0 {
+		if p.minMatch != 1 {
 			return false
 		}
 		if p.maxMatch > 0 {
